@@ -9,6 +9,7 @@ R06.1 FirstCache::get / FollowCache::get: the slot that is tested for "already c
 R06.2 who may write the cache slots: only the two get functions (and Default) store into FirstCache.0 / FollowCache.0; the
       solvers read other slots only through get (so a missing lower-k entry is computed on demand instead of being read as
       empty).
+R06.4 the cache arrays have MAX_K + 1 slots (k ranges over 0 ..= MAX_K).
 R06.3 the fixpoint loops of first_k / follow_k are left only on an equality test of the complete old and new state.
 """
 from ..dataflow import raw_operand_place, raw_place, single_def
@@ -100,6 +101,7 @@ def check(ctx):
                   where(outside[0][0], outside[0][2]) if outside else "crates/parol/src/analysis/k_decision.rs")
     ctx.require_floor("R06.1", "caches", len(CACHES), 2)
     whole_state_convergence(ctx, facts)
+    cache_capacity(ctx, facts)
 
 
 # ------------------------------------------------------------------------------------------------------------------ R06.3
@@ -158,3 +160,22 @@ def whole_state_convergence(ctx, facts):
                           "may still change in that round, and the state that is returned is the one from before the round"
                           % (path.split("::")[-1], partial), where(b, k[1].line))
     ctx.require_floor("R06.3", "convergence_tests", n, 2)
+
+
+def cache_capacity(ctx, facts, rule="R06.4"):
+    """R06.4 / R26.5 (added after seed C26-b) the per-k caches have a slot for every k the analysis can ask for: the lookahead limit
+    is bounded by MAX_K (Builder::max_lookahead and the CLI reject larger values) and decidable requests k = 0 ..= max_k, so the
+    cache arrays need MAX_K + 1 slots.  One slot less and `-k 10` panics with an index out of bounds instead of reporting
+    'maximum lookahead exceeded'."""
+    import re
+    max_k = facts.const("parol::MAX_K")
+    for adt in sorted(CACHES):
+        fields = facts.adt(adt)["variants"][0]["fields"]
+        ty = fields[0][1] if fields else ""
+        m = re.search(r";\s*(\d+)\]\s*$", ty)
+        n = int(m.group(1)) if m else None
+        ctx.check(n == max_k + 1, rule, "%s|capacity" % short(adt).split("::")[-1],
+                  "%s has %s slots = MAX_K (%d) + 1" % (short(adt), n, max_k),
+                  "%s has %s slots but k ranges over 0 ..= MAX_K (%d): requesting the set for k = %d indexes past the array (panic)"
+                  % (short(adt), n if n is not None else "an unevaluated number of (%s)" % ty[-40:], max_k, max_k), 
+                  "crates/parol/src/analysis/k_decision.rs", nontrivial=False)
